@@ -104,3 +104,26 @@ Theorem comparisons_src : forall (addr : option id -> Z), (forall p q, addr p = 
     a_bool gen_cmp = true /\ a_arrow gen_cmp = true /\ a_deref gen_cmp = true.
 Proof. exact (cmp_model gen_cmp cmp_facts_lemma). Qed.
 Print Assumptions comparisons_src.
+
+(* ---- the member list is closed and every operation runs the member overload resolution selects ---- *)
+
+(* IntrusivePtr<T> and RefCountedObject declare exactly the members the model knows: no further
+   constructor, assignment operator, destructor, conversion operator, method or field (an added
+   or vanished declaration is DOther / a shorter list and fails here) *)
+Theorem members_closed : members_ok gen_members = true.
+Proof. exact members_lemma. Qed.
+Print Assumptions members_closed.
+
+(* for every call form the machines and the harness perform (construct from an lvalue / rvalue of
+   the same / another handle type, from a temporary of another type, from a raw pointer; the
+   assignment forms likewise) clang selects the declared member the model runs for it *)
+Theorem overloads_match : sel_ok gen_sel = true.
+Proof. exact sel_lemma. Qed.
+Print Assumptions overloads_match.
+
+(* hence the machine that dispatches every operation through the extracted selection table and
+   runs the extracted micro-operation table is the machine the _src theorems are about *)
+Theorem machine_src_uses_selected_members : forall n l,
+  run_s gen_sel gen_table n l = run_t gen_table n l.
+Proof. exact (fun n l => run_s_eq gen_sel gen_table n l sel_lemma). Qed.
+Print Assumptions machine_src_uses_selected_members.
